@@ -171,11 +171,13 @@ func (cons *VesaFbConsole) Fill(x, y, width, height uint32, _, bg uint8) {
 		y = cons.heightInChars
 	}
 
-	if x+width-1 > cons.widthInChars {
+	// x and y are inside the grid here; compare the extent with the room
+	// that is left so that huge extents cannot wrap around.
+	if width > cons.widthInChars-x+1 {
 		width = cons.widthInChars - x + 1
 	}
 
-	if y+height-1 > cons.heightInChars {
+	if height > cons.heightInChars-y+1 {
 		height = cons.heightInChars - y + 1
 	}
 
